@@ -108,6 +108,10 @@ class Worker:
         except Exception:
             self.exit.set()
             logger.exception('%s thread dies with following exception', self.name)
+        except BaseException:
+            # also tell the main thread that we die, otherwise it can block forever in `join_tasks()`
+            self.exit.set()
+            raise
         finally:
             # drain the queue such that Queue.join() doesn't block
             while not self.tasks.empty():
